@@ -83,4 +83,19 @@ EmitVector ==
     \A x \in Contexts :
       LET txt == InContext(p, x)
       IN PrintT(ToJson([i |-> txt, e |-> ParseText(txt), tag |-> "C05"]))
+
+\* every printable character once in every place where an argument language enumerates letters or digits
+\* (a table with one wrong, missing or extra entry shows on ONE character)
+SweepChars == {c \in 33..126 : c \notin {cSQ, cDQ, cRP}}
+SweepForms(c) == << Cp("-type ") \o <<c>>, Cp("-type f,") \o <<c>>, Cp("-type ") \o <<c>> \o Cp(",d"), Cp("-perm ") \o <<c>> \o Cp("+r"),
+                    Cp("-perm u") \o <<c>> \o Cp("r"), Cp("-perm u+") \o <<c>>, Cp("-perm g=r") \o <<c>>, Cp("-perm ") \o <<c>> \o Cp("644"),
+                    Cp("-perm 64") \o <<c>>, Cp("-perm -") \o <<c>>, Cp("-perm /u+w,") \o <<c>>, Cp("-size 1") \o <<c>>, Cp("-size ") \o <<c>> \o Cp("1"),
+                    Cp("-mtime 1") \o <<c>>, Cp("-amin ") \o <<c>> \o Cp("1"), Cp("-uid ") \o <<c>> \o Cp("5"), Cp("-uid 5") \o <<c>>,
+                    Cp("-links +") \o <<c>>, Cp("-threads ") \o <<c>>, Cp("-name ") \o <<c>>, Cp("-") \o <<c>>, Cp("-print") \o <<c>>,
+                    Cp("-a") \o <<c>>, Cp("-o") \o <<c>>, <<c>> \o Cp("-true"), Cp("-true ") \o <<c>> >>
+EmitSweep ==
+  vSeq = <<>> =>
+    \A c \in SweepChars : \A k \in 1..Len(SweepForms(c)) :
+      LET txt == SweepForms(c)[k] IN
+      PrintT(ToJson([i |-> txt, e |-> ParseText(txt), tag |-> "C05"]))
 =============================================================================
